@@ -2,4 +2,5 @@ From MV Require Import Lib.ExtractBase C02.Model.
 From Coq Require Import ExtrOcamlBasic.
 Extraction Language OCaml.
 Extraction "c02_model" force_types init step get_mode wmode_num rmode_num err_invalid_param cap_log cap
+  init_capacity ty_fields ty_block_ptr rd_start
   s_cursor s_rc s_begun s_deliv s_nw s_wr s_wbeg s_nt s_once s_who s_lapped s_uncov s_thr t_cnt t_got.
